@@ -47,6 +47,10 @@ def prev : Ptr → Ptr
   | none => none
   | some j => if j = 0 then none else some (j - 1)
 def pos (p : Ptr) : Nat := p.getD 0
+/-- every `next` link of a chain of `n` nodes was turned around -/
+def rev (n : Nat) : Ptr → Ptr
+  | none => none
+  | some j => some (n - 1 - j)
 end Ptr
 
 structure Chain where
@@ -89,6 +93,10 @@ def swapNodes (l : Chain) (a b : Nat) : Chain :=
   { l with nodes := (l.nodes.set a (l.nodes.getD b 0)).set b (l.nodes.getD a 0),
            head := l.head.swapPtr a b, tail := l.tail.swapPtr a b }
 
+/-- every `next` link is turned around (singly linked `reverse`): the chain runs the other way -/
+def flip (l : Chain) : Chain :=
+  { l with nodes := l.nodes.reverse, head := l.head.rev l.nodes.length, tail := l.tail.rev l.nodes.length }
+
 /-- the data met when following `next` from `p` to `NULL` -/
 def walk (l : Chain) (p : Ptr) : List Nat :=
   match p with
@@ -129,5 +137,39 @@ end Chain
 def Mem.freeN : Nat → Mem → Mem
   | 0, m => m
   | k + 1, m => Mem.freeN k m.free
+
+namespace Chain
+/-! loops that `cc_list.c` and `cc_slist.c` share word for word -/
+
+/-- `link_all_externally`: one node per element of `src`; on a refusal every copy made so far is
+released.  Returns the data of the external chain. -/
+def linkAll (src : Chain) : Nat → Ptr → List Nat → Mem → Bool × List Nat × Mem
+  | 0, _, acc, m => (true, acc, m)
+  | k + 1, ins, acc, m =>
+    let a := m.alloc
+    if !a.1 then (false, [], Mem.freeN acc.length a.2) else
+    let m := a.2.check (ins.valid src.nodes.length)
+    linkAll src k (ins.next src.nodes.length) (acc ++ [src.data ins]) m
+def linkAllExternally (src : Chain) (m : Mem) : Bool × List Nat × Mem :=
+  linkAll src src.size src.head [] m
+
+/-- `for (i = 0; i < k; i++) { array[i] = node->data; node = node->next; }` -/
+def collect (l : Chain) : Nat → Ptr → Mem → List Nat × Mem
+  | 0, _, m => ([], m)
+  | k + 1, node, m =>
+    let m := m.check (node.valid l.nodes.length)
+    let r := collect l k (node.next l.nodes.length) m
+    (l.data node :: r.1, r.2)
+
+/-- `for (i = 0; i < k; i++) { node->data = elements[i]; node = node->next; }` -/
+def writeBack : Nat → Nat → Ptr → List Nat → Chain → Mem → Chain × Mem
+  | 0, _, _, _, l, m => (l, m)
+  | k + 1, i, node, vals, l, m =>
+    let m := m.check (node.valid l.nodes.length && decide (i < vals.length))
+    writeBack k (i + 1) (node.next l.nodes.length) vals (l.setData node (vals.getD i 0)) m
+end Chain
+
+/-- `x - 1` in `size_t` -/
+def wdec (x : Nat) : Nat := if x = 0 then 2 ^ 64 - 1 else x - 1
 
 end CC
